@@ -142,11 +142,11 @@ func VerifLemma_C18A_BoolOptions() {
 	if !untouched && want != oldVal {
 		verifCover("value rewritten")
 		verifAssert(f.fdp.Options != nil && bo.ptr(f.fdp.Options) != nil && *bo.ptr(f.fdp.Options) == want, "bool option: set to last matching override, else the default")
-		verifAssert(len(sw.paths) == 1 && vPathIs(sw.paths[0], bo.path) && sw.files[0] == bufimage.ImageFile(f), "bool option: exactly its source path is marked when rewritten")
+		verifAssert(vMarksOnly(sw, f.Path(), bo.path), "bool option: exactly its source path is marked when rewritten")
 	} else {
 		verifCover("value kept")
-		verifAssert(f.fdp.Options == snap.options, "bool option: Options message untouched when disabled / preserved / already equal")
-		verifAssert(f.fdp.Options == nil || bo.ptr(f.fdp.Options) == oldPtr, "bool option: value untouched when disabled / preserved / already equal")
+		verifAssert(vOptionsPresenceKept(snap, f.fdp), "bool option: no options message appears when disabled / preserved / already equal")
+		verifAssert(vGovernedKept(snap, f.fdp, bo.opt), "bool option: value untouched when disabled / preserved / already equal")
 		verifAssert(len(sw.paths) == 0, "bool option: nothing marked when nothing is rewritten")
 	}
 	verifAssert(vFrameOK(snap, f.fdp), "bool option: every other descriptor field is unchanged")
@@ -207,10 +207,10 @@ func VerifLemma_C18A_OptimizeFor() {
 	if !untouched && want != oldVal {
 		verifCover("value rewritten")
 		verifAssert(f.fdp.Options != nil && f.fdp.Options.OptimizeFor != nil && *f.fdp.Options.OptimizeFor == want, "optimize_for: set to last matching override, else SPEED")
-		verifAssert(len(sw.paths) == 1 && vPathIs(sw.paths[0], []int32{8, 9}), "optimize_for: exactly its source path is marked when rewritten")
+		verifAssert(vMarksOnly(sw, f.Path(), []int32{8, 9}), "optimize_for: exactly its source path is marked when rewritten")
 	} else {
 		verifCover("value kept")
-		verifAssert(f.fdp.Options == snap.options && (f.fdp.Options == nil || f.fdp.Options.OptimizeFor == oldPtr), "optimize_for: untouched when disabled / preserved / already equal")
+		verifAssert(vOptionsPresenceKept(snap, f.fdp) && vGovernedKept(snap, f.fdp, bufconfig.FileOptionOptimizeFor), "optimize_for: untouched when disabled / preserved / already equal")
 		verifAssert(len(sw.paths) == 0, "optimize_for: nothing marked when nothing is rewritten")
 	}
 	verifAssert(vFrameOK(snap, f.fdp), "optimize_for: every other descriptor field is unchanged")
